@@ -131,6 +131,18 @@ class Machine:
                         'get', 'index', 'count', 'lower', 'upper', '__contains__',
                         'strip', 'issubset', 'issuperset', 'isdisjoint'):
                     return getattr(base, e.attr)
+            # a property of an object of a class of the program
+            if isinstance(base, Sym) and getattr(base, 'cls', None):
+                meth = self.method_of(base, e.attr)
+                if meth is not None and any(
+                        au.src(d) == 'property'
+                        for d in meth[1].decorator_list):
+                    return self.apply_callable(meth, [base])
+            elif isinstance(base, Sym) and getattr(
+                    self.stubs, 'is_property', None) and \
+                    self.stubs.is_property(e.attr):
+                self.receiver = base
+                return self.stubs[e.attr](self, None, [], {})
             # a method of the model object, used as a value
             # (`starmap(self.ite, ...)`)
             if isinstance(base, Sym) and e.attr in self.stubs:
@@ -208,6 +220,16 @@ class Machine:
             raise Unknown('starred')
         if isinstance(e, ast.UnaryOp):
             v = self.ev(e.operand)
+            if isinstance(v, Sym) and getattr(v, 'cls', None):
+                # an object of a class of the program: its own method
+                name = {ast.Invert: '__invert__', ast.USub: '__neg__',
+                        ast.UAdd: '__pos__'}.get(type(e.op))
+                if name is None:
+                    return not self.truth(v)
+                meth = self.method_of(v, name)
+                if meth is None:
+                    raise Unknown(au.src(e))
+                return self.apply_callable(meth, [v])
             if isinstance(e.op, ast.Not):
                 if isinstance(v, Sym):
                     raise Unknown(au.src(e))
@@ -270,17 +292,18 @@ class Machine:
                 r = True
                 for v in e.values:
                     r = self.ev(v)
-                    if not r:
+                    if not self.truth(r):
                         return r
                 return r
             r = False
             for v in e.values:
                 r = self.ev(v)
-                if r:
+                if self.truth(r):
                     return r
             return r
         if isinstance(e, ast.IfExp):
-            return self.ev(e.body) if self.ev(e.test) else self.ev(e.orelse)
+            return self.ev(e.body) if self.truth(
+                self.ev(e.test)) else self.ev(e.orelse)
         if isinstance(e, ast.Compare):
             left = self.ev(e.left)
             for op, c in zip(e.ops, e.comparators):
@@ -294,10 +317,29 @@ class Machine:
                         ok = left > right
                     elif isinstance(op, ast.GtE):
                         ok = left >= right
+                    elif isinstance(op, (ast.Eq, ast.NotEq)) and \
+                            isinstance(left, Sym) and self.method_of(
+                                left, '__eq__') is not None:
+                        # (`__ne__` of the class, when it has one, is not
+                        # consulted: undecided rather than guessed)
+                        if isinstance(op, ast.NotEq) and self.method_of(
+                                left, '__ne__') is not None:
+                            raise Unknown(au.src(e))
+                        ok = bool(self.apply_callable(self.method_of(
+                            left, '__eq__'), [left, right]))
+                        if isinstance(op, ast.NotEq):
+                            ok = not ok
                     elif isinstance(op, ast.Eq):
                         ok = left == right
                     elif isinstance(op, ast.NotEq):
                         ok = left != right
+                    elif isinstance(op, (ast.In, ast.NotIn)) and \
+                            isinstance(right, Sym) and self.method_of(
+                                right, '__contains__') is not None:
+                        ok = bool(self.apply_callable(self.method_of(
+                            right, '__contains__'), [right, left]))
+                        if isinstance(op, ast.NotIn):
+                            ok = not ok
                     elif isinstance(op, (ast.In, ast.NotIn)):
                         if isinstance(right, Sym):
                             # membership in an opaque object: by the
@@ -364,7 +406,7 @@ class Machine:
             g = e.generators[k]
             for item in self.iterate(self.ev(g.iter)):
                 self.store(g.target, item)
-                if all(self.ev(c) for c in g.ifs):
+                if all(self.truth(self.ev(c)) for c in g.ifs):
                     rec(k + 1)
         try:
             rec(0)
@@ -398,7 +440,7 @@ class Machine:
             for item in items:
                 sub.steps = 0
                 sub.store(g.target, item)
-                if all(sub.ev(c) for c in g.ifs):
+                if all(sub.truth(sub.ev(c)) for c in g.ifs):
                     if k + 1 == len(e.generators):
                         v = sub.ev(e.elt)
                         for key, val in sub.env.items():
@@ -663,6 +705,65 @@ class Machine:
             raise Raised('TypeError')
         return obj
 
+    def _opaque(self, e):
+        raise Unknown(au.src(e))
+
+    def truth(self, v):
+        """Truth value as `if` takes it: an object of a class of the
+        program is asked through `__bool__` / `__len__`."""
+        if isinstance(v, Sym) and getattr(v, 'cls', None):
+            meth = self.method_of(v, '__bool__')
+            if meth is not None:
+                return bool(self.apply_callable(meth, [v]))
+            meth = self.method_of(v, '__len__')
+            if meth is not None:
+                return self.apply_callable(meth, [v]) != 0
+            if v.cls[1].bases and not all(
+                    au.src(b) == 'object' for b in v.cls[1].bases):
+                # (a base class may define either)
+                for b in v.cls[1].bases:
+                    bc = self.program_class(b)
+                    if bc is None:
+                        raise Unknown('truth value of an object whose '
+                                      'base class is not in the program')
+                    for st in bc[1].body:
+                        if isinstance(st, ast.FunctionDef) and st.name in (
+                                '__bool__', '__len__'):
+                            raise Unknown('truth value by a base class')
+                    if bc[1].bases:
+                        raise Unknown('truth value by a base class')
+            return True
+        return bool(v)
+
+    def program_class(self, expr):
+        """The class of the program that `expr` names, or None."""
+        try:
+            v = self.ev(expr)
+        except (Unknown, Raised):
+            return None
+        if isinstance(v, tuple) and v[:1] == ('class',):
+            return v
+        return None
+
+    def instance_of(self, v, cls, what):
+        """`isinstance(v, cls)` for a class of the program: objects
+        made from that very class are; plain values are not; an object
+        of another class that has base classes is left undecided."""
+        if isinstance(v, Sym):
+            c = getattr(v, 'cls', None)
+            if c is None:
+                raise Unknown(f'isinstance(..., {what})')
+            if c[1] is cls[1]:
+                return True
+            if any(au.src(b).rsplit('.', 1)[-1] == cls[1].name
+                   for b in c[1].bases):
+                raise Unknown(f'isinstance(..., {what})')
+            return False
+        if isinstance(v, tuple) and v[:1] in (
+                ('closure',), ('lambda',), ('class',), ('ctxgen',)):
+            raise Unknown(f'isinstance(..., {what})')
+        return False
+
     def method_of(self, obj, name):
         cls = getattr(obj, 'cls', None)
         if cls is None:
@@ -687,6 +788,9 @@ class Machine:
                     args = self.elements(e.args)
                     kw = self.keywords(e)
                     return self.apply_callable(meth, [recv0] + args, kw)
+                if not (recv0.attrs and e.func.attr in recv0.attrs):
+                    # (a method the class inherits: not modelled)
+                    raise Unknown(f'method {e.func.attr} of a base class')
         if n == 'hasattr' and len(e.args) == 2:
             obj = self.ev(e.args[0])
             name = self.ev(e.args[1])
@@ -714,6 +818,10 @@ class Machine:
             return abs(self.ev(e.args[0]))
         if n == 'len' and len(e.args) == 1:
             v = self.ev(e.args[0])
+            if isinstance(v, Sym) and self.method_of(
+                    v, '__len__') is not None:
+                return self.apply_callable(
+                    self.method_of(v, '__len__'), [v])
             if isinstance(v, Sym):
                 if '__len__' not in self.stubs:
                     raise Unknown(au.src(e))
@@ -735,13 +843,25 @@ class Machine:
             types = e.args[1].elts if isinstance(
                 e.args[1], ast.Tuple) else [e.args[1]]
             known = _KNOWN_TYPES
-            if isinstance(v, (Sym, tuple)) and not isinstance(v, tuple):
-                raise Unknown(au.src(e))
             out = False
             for t in types:
                 tn = au.src(t).rsplit('.', 1)[-1]
                 if tn not in known:
-                    raise Unknown(au.src(e))
+                    own = self.program_class(t)
+                    if own is None:
+                        raise Unknown(au.src(e))
+                    if self.instance_of(v, own, au.src(t)):
+                        out = True
+                    continue
+                if isinstance(v, Sym):
+                    # an object of a class of the program without base
+                    # classes is none of the built-in types
+                    c = getattr(v, 'cls', None)
+                    if c is None or c[1].bases and any(
+                            au.src(b).rsplit('.', 1)[-1] in known
+                            for b in c[1].bases):
+                        raise Unknown(au.src(e))
+                    continue
                 if isinstance(v, known[tn]):
                     out = True
             return out
@@ -777,6 +897,29 @@ class Machine:
                 if e.func.id == 'map':
                     return [self.apply_callable(f, [x]) for x in xs]
                 return [x for x in xs if self.apply_callable(f, [x])]
+            if e.func.id in self.SAFE and any(
+                    isinstance(a, Sym) for a in args):
+                # a built-in applied to an object: through the method of
+                # its class, or not at all
+                a0 = args[0]
+                name = {'int': '__int__', 'str': '__str__',
+                        'abs': '__abs__', 'iter': '__iter__'}.get(
+                            e.func.id)
+                if e.func.id == 'bool' and len(args) == 1:
+                    return self.truth(a0) if getattr(
+                        a0, 'cls', None) else self._opaque(e)
+                meth = self.method_of(a0, name) if (
+                    name and len(args) == 1 and isinstance(a0, Sym)) \
+                    else None
+                if meth is not None:
+                    return self.apply_callable(meth, [a0])
+                if e.func.id in ('list', 'tuple', 'set', 'sorted',
+                                 'enumerate', 'sum', 'any', 'all', 'min',
+                                 'max', 'frozenset', 'reversed') and \
+                        len(args) == 1 and not kw:
+                    args = [self.iterate(a0)]
+                elif e.func.id not in ('dict', 'zip', 'len', 'next', 'str'):
+                    raise Unknown(au.src(e))
             if e.func.id in self.SAFE:
                 try:
                     if 'key' in kw and isinstance(kw['key'], tuple):
@@ -931,7 +1074,7 @@ class Machine:
             self.store(s.target, self.ev(load))
             return
         if isinstance(s, ast.If):
-            self.run(s.body if self.ev(s.test) else s.orelse)
+            self.run(s.body if self.truth(self.ev(s.test)) else s.orelse)
             return
         if isinstance(s, (ast.FunctionDef,)):
             self.env[s.name] = ('closure', s, self.resolver, self.env)
@@ -964,7 +1107,7 @@ class Machine:
         if isinstance(s, ast.While):
             k = 0
             broke = False
-            while self.ev(s.test):
+            while self.truth(self.ev(s.test)):
                 k += 1
                 if k > 2000:
                     raise Unknown('loop limit')
@@ -1117,7 +1260,7 @@ class Machine:
                 raise Raised(self.handling.name, s)
             raise Raised(au.raised_name(s) or '?', s)
         if isinstance(s, ast.Assert):
-            if not self.ev(s.test):
+            if not self.truth(self.ev(s.test)):
                 raise Raised('AssertionError', s)
             return
         if isinstance(s, ast.Match):
@@ -1127,11 +1270,16 @@ class Machine:
                 if isinstance(p, ast.MatchClass) and not p.patterns \
                         and not p.kwd_patterns:
                     t = au.src(p.cls).rsplit('.', 1)[-1]
-                    if t not in _KNOWN_TYPES or isinstance(subj, Sym) or (
+                    own = self.program_class(p.cls) \
+                        if t not in _KNOWN_TYPES else None
+                    if own is not None:
+                        ok = self.instance_of(subj, own, au.src(p.cls))
+                    elif t not in _KNOWN_TYPES or isinstance(subj, Sym) or (
                             isinstance(subj, tuple) and subj[:1] in (
                                 ('closure',), ('lambda',), ('class',))):
                         raise Unknown(f'match {au.src(p.cls)}')
-                    ok = isinstance(subj, _KNOWN_TYPES[t])
+                    else:
+                        ok = isinstance(subj, _KNOWN_TYPES[t])
                 elif isinstance(p, ast.MatchValue):
                     ok = subj == self.ev(p.value)
                 elif isinstance(p, ast.MatchSingleton):
@@ -1147,12 +1295,26 @@ class Machine:
                             and au.src(q.cls).rsplit('.', 1)[-1]
                             in _KNOWN_TYPES) for q in p.patterns):
                     if isinstance(subj, Sym):
-                        raise Unknown('match on an opaque value')
-                    ok = any(
-                        subj == self.ev(q.value) if isinstance(
-                            q, ast.MatchValue) else isinstance(
-                                subj, _KNOWN_TYPES[au.src(q.cls).rsplit(
-                                    '.', 1)[-1]]) for q in p.patterns)
+                        c = getattr(subj, 'cls', None)
+                        if c is None or c[1].bases and any(
+                                au.src(b).rsplit('.', 1)[-1]
+                                in _KNOWN_TYPES for b in c[1].bases):
+                            raise Unknown('match on an opaque value')
+                        # an object of a class of the program is none of
+                        # the built-in types, and equal to no literal
+                        # unless its class says so
+                        if self.method_of(subj, '__eq__') is not None \
+                                and any(isinstance(q, ast.MatchValue)
+                                        for q in p.patterns):
+                            raise Unknown('match on an opaque value')
+                        ok = False
+                    else:
+                        ok = any(
+                            subj == self.ev(q.value) if isinstance(
+                                q, ast.MatchValue) else isinstance(
+                                    subj, _KNOWN_TYPES[au.src(
+                                        q.cls).rsplit('.', 1)[-1]])
+                            for q in p.patterns)
                 else:
                     raise Unknown('match pattern')
                 if ok:
